@@ -4,11 +4,13 @@ HDR = "From TeraV Require Import Model.Value Model.Pratt Corr.CorrC02.\nOpen Sco
 
 CFG = {
     "bin": "c02",
-    "corr": ["CorrC02"],
+    "corr": ["CorrC02", "CorrC02Eval"],
     "harness_timeout": 1500,
     "families": {
         "ptree": {"header": HDR, "model_fn": "model_ptree", "rule": "F"},
         "praw": {"header": HDR, "model_fn": "model_praw", "rule": "F"},
+        "eval": {"header": "From TeraV Require Import Model.Value Model.Pratt Spec.ExprSem Corr.CorrC02Eval.\nOpen Scope Z_scope.",
+                 "model_fn": "model_eval", "rule": "F"},
     },
     "exhaustive_when": "exhaustive_shapes",
     "rule_text": "ptree: a surface tree (expression tree + placement of parentheses + `not in`/`is not` spelling) printed as real `{{ .. }}` "
@@ -16,7 +18,10 @@ CFG = {
                  "Display = Display of the documented grouping. Distinct by the Gallina term of the case; non-trivial = at least two operators/postfix forms. "
                  "Exhaustive every run: all `a op1 b op2 c` (both groupings) over the 17 infix operators and `not in`, unary x infix (both nestings), "
                  "infix x filter / test / `is not`, ternary against every operator in every position, unary/filter/test nestings, subscripts on every base "
-                 "kind; each in minimal and fully parenthesised form. praw: mutated and hand-written malformed token streams, accept/reject and Display.",
+                 "kind; each in minimal and fully parenthesised form. praw: mutated and hand-written malformed token streams, accept/reject and Display. "
+                 "eval: expression x context (each free variable bound to a value of every kind or unbound), `{{ (e) | probe }}` value or `{{ e }}` ok/error vs the "
+                 "reference evaluator (cases the documentation leaves open count as evaluated but not as non-trivial evidence of agreement); systematic: every "
+                 "operand kind x every operator shape with `throw()` planted in the operand that must not be evaluated.",
     "trusted_base": TB_COMMON + [
         "axioms: none (every C02 theorem is 'Closed under the global context')",
         "tools/gen/bp.py: transcribes binary_binding_power / unary_binding_power / TERNARY_L_BP and the documented precedence rows",
